@@ -36,6 +36,7 @@ Record peer_state := {
   t_ptok : gmap uuid uuid;         (* pushed_parent_from_network: links applied from the network, not yet seen by the tracking system *)
   t_mat : bool; t_mesh : bool; t_audio : bool;
   t_promo : bool;
+  t_closing : bool;                (* closing_server_after_promotion *)
   (* assets: content digests by uuid, unread asset events per class reader *)
   a_store : gmap N N;                    (* Assets<T> by akey kind uuid: content *)
   a_events : list (akind * uuid);        (* asset events queued in Assets<T> (flushed in Last) *)
@@ -67,7 +68,7 @@ Record peer_state := {
 
 #[export] Instance eta_peer_state : Settable _ := settable! Build_peer_state
   <p_id; p_sync_types; p_registry; p_order; p_ents; p_reserved; p_next_ent; p_tick; p_last_run; p_cond_bit;
-   t_u2e; t_e2u; t_queue; t_ctok; t_htok; t_tomb; t_ptok; t_mat; t_mesh; t_audio; t_promo;
+   t_u2e; t_e2u; t_queue; t_ctok; t_htok; t_tomb; t_ptok; t_mat; t_mesh; t_audio; t_promo; t_closing;
    a_store; a_events; a_ready; h_cache; d_pending; n_promote_events; p_app_cmds;
    n_setup; n_srv_transport; n_cli_transport; n_clients; n_srv_events; n_kicked; n_status; n_sticky_disconnect; n_inbox;
    s_server; s_client; s_next_server; s_next_client; p_cmdq; p_out; p_finished_events; p_panic>.
@@ -81,7 +82,7 @@ Definition init_peer (id : peer) (sync_types registry : list tyid) (order : list
   {| p_id := id; p_sync_types := sync_types; p_registry := registry; p_order := order;
      p_ents := ∅; p_reserved := []; p_next_ent := 4294967296; p_tick := 1; p_last_run := ∅; p_cond_bit := ∅;
      t_u2e := ∅; t_e2u := ∅; t_queue := []; t_ctok := []; t_htok := []; t_tomb := []; t_ptok := ∅;
-     t_mat := false; t_mesh := false; t_audio := false; t_promo := false;
+     t_mat := false; t_mesh := false; t_audio := false; t_promo := false; t_closing := false;
      a_store := {[ akey KMaterial 0 := 500 ]}; a_events := []; a_ready := []; h_cache := ∅; d_pending := []; n_promote_events := []; p_app_cmds := [];
      n_setup := false; n_srv_transport := None; n_cli_transport := None; n_clients := []; n_srv_events := []; n_kicked := [];
      n_status := RDisconnected; n_sticky_disconnect := false; n_inbox := ∅;
@@ -376,7 +377,7 @@ Definition apply_cmd (pr : peer_state) (c : cmd) : peer_state :=
       (* a new RenetClient is inserted together with the transport (repair of S9): whatever happened to
          the old one (disconnect(), a kick) is forgotten *)
       let pr := pr <| n_sticky_disconnect := false |> <| n_status := RConnecting |> in
-      if flag then pr <| t_promo := true |> else pr
+      if flag then pr <| t_promo := true |> <| t_closing := true |> else pr     (* flag = the old host's deferred closure *)
   | CRemoveClientTransport => pr <| n_cli_transport := None |>
   | CRemoveServerTransport => pr <| n_srv_transport := None |>
   end.
@@ -603,11 +604,11 @@ Definition client_received (pr : peer_state) (k : N) (m : msg) : peer_state :=
   | MAsset c a owner => request_asset pr c a owner
   | MPromote => push_cmd pr k CStartServer
   | MNewHost h =>
-      (* client.disconnect(); cmd.remove_resource; cmd.insert_resource(create_client); flag := true *)
+      (* client.disconnect(); cmd.remove_resource; cmd.insert_resource(RenetClient::new, create_client);
+         the flag is NOT set (ClientState stays Connected through the swap: nothing would clear it) *)
       let pr := pr <| n_sticky_disconnect := true |> <| n_status := RDisconnected |> in
       let pr := push_cmd pr k CRemoveClientTransport in
-      let pr := push_cmd pr k (CStartClientTo h false) in
-      pr <| t_promo := true |>
+      push_cmd pr k (CStartClientTo h false)
   | MReqInit => pr
   | MFinInit => pr <| p_finished_events := p_finished_events pr + 1 |>
   end.
@@ -644,8 +645,8 @@ Definition client_connected (pr : peer_state) (k : N) : peer_state :=
            if (connected : bool) then
              if t_promo pr then push_cmd (pr <| t_promo := false |>) k CRemoveClientTransport else pr
            else
-             if is_nil (n_clients pr) && t_promo pr then
-               push_cmd (pr <| n_clients := [] |> <| t_promo := false |>) k CRemoveServerTransport
+             if is_nil (n_clients pr) && (t_promo pr || t_closing pr) then
+               push_cmd (pr <| n_clients := [] |> <| t_promo := false |> <| t_closing := false |>) k CRemoveServerTransport
              else pr) pr evs.
 
 Definition verify_client_connected (pr : peer_state) (k : N) : peer_state :=
